@@ -176,15 +176,9 @@ def run(src, napps=1, nprocs=2, behaviours=BEHAVIOURS, rounds=9, auto=True, loss
         if lose_at == r:
             # the peer dies: requests in flight are never answered, the failure is notified to the Master
             lost_ids.append(ids[1])
-            # whatever was requested there and not yet answered stays unanswered
-            log = core.rpc_handler.out
-            while cursor[0] < len(log):
-                name, a = log[cursor[0]]
-                cursor[0] += 1
-                if name == 'send_start_process':
-                    mon.on_request('start', a[0], a[1])
-                elif name == 'send_stop_process':
-                    mon.on_request('stop', a[0], a[1])
+            # whatever was requested there and not yet answered stays unanswered (requests to the survivors are
+            # answered as usual)
+            _drain(core, sim, mon, cursor, beh, lost_ids)
             core.fsm.on_instance_failure(core.context.instances[ids[1]])
             mon.on_host_lost([ns for ns, d in procs.items() if d['host'] == ids[1]])
         _drain(core, sim, mon, cursor, beh, lost_ids)
